@@ -1,5 +1,6 @@
 """Contracts of the units of icontract/_checkers.py that call user code: exact expected traces (monitor form)."""
 import z3
+from pyvc.base import qforall
 
 from pyvc.base import V, NONE, TRUE, FALSE, I, B, T_DICT, T_EXC, T_OBJ, ISINST, clsref, strref, fresh, vbool
 from pyvc.engine import FnSpec
@@ -270,7 +271,7 @@ def captured_map(sp, H, n, m_dom, m_val, upto, t0, witness=False):
     j, k = z3.Int("j!cm"), z3.Int("k!cm")
     name = lambda x: attr(H, x, "name")
     if witness:
-        nothing_else = z3.ForAll([k], z3.Implies(z3.Select(m_dom, k), z3.And(NIDX(sp.S, k) >= 0, NIDX(sp.S, k) < upto, k == name(seq[NIDX(sp.S, k)]))),
+        nothing_else = qforall([k], z3.Implies(z3.Select(m_dom, k), z3.And(NIDX(sp.S, k) >= 0, NIDX(sp.S, k) < upto, k == name(seq[NIDX(sp.S, k)]))),
                                  patterns=[z3.Select(m_dom, k)])
     else:
         nothing_else = z3.ForAll([k], z3.Implies(z3.Select(m_dom, k), z3.Exists([j], z3.And(j >= 0, j < upto, k == name(seq[j])))))
